@@ -20,11 +20,11 @@ QUERIES = [
     bounds='a 16-byte, 8-aligned, not trivially copyable type whose last byte is significant, all bytes symbolic; record start at any offset 0..15 of a 64-byte aligned buffer; align_pointer = the contract decided by deferred_align',
     what='real DeferredFormatCodec encode/decode_arg (placement-new path): written == consumed == reserved, no byte outside the reservation is touched, the decoded object equals the original even after the bytes behind the reservation were overwritten'),
 ]
-BOUNDS = 'listed instantiations, strings <= 5 bytes; sanitiser strings of 3 bytes'
+BOUNDS = 'listed instantiations, strings <= 5 bytes; sanitiser strings of 3 bytes; one 16-byte not trivially copyable deferred-format type at every start offset; argument-store flag for the 4 character-carrying argument kinds'
 OUTSIDE = 'that libfmt renders equal values to equal text (trusted: deterministic function of template, types and values); std container / optional / pair / tuple / chrono / path codecs, DeferredFormatCodec for other types than the bounded one, DirectFormatCodec, nested containers, wchar_t'
 ASSUMPTIONS = ['call-site text == backend text is reduced to: decoded argument values are bit-identical to the originals + identical template + deterministic libfmt']
 MANIFEST = {
- 'text': 'Codec and sanitiser part only: the solver decides, for the listed argument lists with all values symbolic, that size computation, encoder and decoder of the real Codec<T> agree byte for byte through the real log_statement and queue (reserved == written == consumed, values bit-identical, views into the queue), and that the real sanitiser equals a reference escape on every 3-byte string.',
+ 'text': 'Codec and sanitiser part only: the solver decides, for the listed argument lists with all values symbolic, that size computation, encoder and decoder of the real Codec<T> agree byte for byte through the real log_statement and queue (reserved == written == consumed, values bit-identical, views into the queue), that the real sanitiser equals a reference escape on every 3-byte string and is not skipped for any argument kind that can carry a non-printable character (argument-store flag, also for a lone char among numbers), and that the deferred-format codec of a not trivially copyable type writes only inside its reservation at every record alignment and decodes to the original object (alignment helper = smallest aligned address, decided on all 64-bit addresses).',
  'note': 'libfmt rendering is trusted, container/user-type codecs outside. Trusted: clang IR, translator, CBMC.',
  'technique': 'CBMC/SAT round-trip (encode -> queue -> decode) over clang IR of the real Codec and log_statement with symbolic values; native replay',
 }
